@@ -347,20 +347,53 @@ where
     let threads = std::thread::available_parallelism().map(|x| x.get()).unwrap_or(4).min(16);
     let results: Vec<std::sync::Mutex<Option<(Value, Value)>>> = (0..n).map(|_| std::sync::Mutex::new(None)).collect();
     let next = std::sync::atomic::AtomicUsize::new(0);
+    // watchdog: a case that keeps the implementation busy for longer than the limit is a hang; it is written to
+    // $BWH_HANG_FILE (regenerated from its index) and the process exits with status 3
+    use std::sync::atomic::{AtomicU64, AtomicUsize, Ordering};
+    let limit_ms: u64 = std::env::var("BWH_CASE_LIMIT_S").ok().and_then(|s| s.parse().ok()).unwrap_or(90u64) * 1000;
+    let t0 = std::time::Instant::now();
+    let cur: Vec<AtomicUsize> = (0..threads).map(|_| AtomicUsize::new(usize::MAX)).collect();
+    let since: Vec<AtomicU64> = (0..threads).map(|_| AtomicU64::new(0)).collect();
+    let done = std::sync::atomic::AtomicBool::new(false);
     std::thread::scope(|s| {
-        for _ in 0..threads {
-            s.spawn(|| {
+        s.spawn(|| {
+            while !done.load(Ordering::Relaxed) {
+                std::thread::sleep(std::time::Duration::from_millis(250));
+                let now = t0.elapsed().as_millis() as u64;
+                for t in 0..threads {
+                    let i = cur[t].load(Ordering::Relaxed);
+                    if i != usize::MAX && now.saturating_sub(since[t].load(Ordering::Relaxed)) > limit_ms {
+                        let mut ctx = Ctx::new();
+                        let case = generator(&mut ctx, seed, i);
+                        let cj = case_json(&mut ctx, &case);
+                        if let Ok(path) = std::env::var("BWH_HANG_FILE") {
+                            let _ = std::fs::write(&path, serde_json::json!({"index": i, "limit_s": limit_ms / 1000, "case": cj}).to_string());
+                        }
+                        eprintln!("bwh: case {i} did not finish within {} s", limit_ms / 1000);
+                        std::process::exit(3);
+                    }
+                }
+            }
+        });
+        let workers: Vec<_> = (0..threads).map(|t| {
+            let (cur, since, next, results, generator) = (&cur, &since, &next, &results, &generator);
+            s.spawn(move || {
                 let mut ctx = Ctx::new();
                 loop {
-                    let i = next.fetch_add(1, std::sync::atomic::Ordering::Relaxed);
+                    let i = next.fetch_add(1, Ordering::Relaxed);
                     if i >= n { break; }
                     let case = generator(&mut ctx, seed, i);
                     let cj = case_json(&mut ctx, &case);
+                    since[t].store(t0.elapsed().as_millis() as u64, Ordering::Relaxed);
+                    cur[t].store(i, Ordering::Relaxed);
                     let ij = run_impl(&mut ctx, &case);
+                    cur[t].store(usize::MAX, Ordering::Relaxed);
                     *results[i].lock().unwrap() = Some((cj, ij));
                 }
-            });
-        }
+            })
+        }).collect();
+        for w in workers { let _ = w.join(); }
+        done.store(true, Ordering::Relaxed);
     });
     results.into_iter().map(|m| m.into_inner().unwrap().unwrap()).collect()
 }
